@@ -120,6 +120,16 @@ CHECKS = {
              "load()/run() versus hexsim::Processor with the number of consumed input bytes compared.",
         note="Trusted: lib/xref.py only as the filter for 'well-defined'. hextb runs use a fixed seed here; seed independence is C13.",
         ref="4/C06"),
+    "C14": dict(
+        technique="runtime monitoring: process monitor over the shipped executables (exit status, stderr, before/after directory snapshots) with in-process acceptance ground truth",
+        engine="procmon",
+        text="Exploration: accepted and rejected assembly and X sources (generated programs, token-damaged programs, hand-written "
+             "lexer/parser/semantic/label errors) are passed to the hexasm, xcmp and xrun executables built from the tree in fresh "
+             "directories with every argument order and option spelling, output names with directories and spaces, the output path absent "
+             "or pre-filled with a sentinel; status, diagnostics, the file written (byte-equal to the in-process image), absence of other "
+             "new or changed files, and xrun == xcmp+hexsim (stdout and status = exit value & 0xFF) are checked.",
+        note="Acceptance ground truth from the in-process library call on the same bytes. I/O faults are outside the property.",
+        ref="4/C14"),
 }
 
 PENDING_REASON = "no check registered yet in this revision of /verif (machinery for it is still being built; see DESIGN.md section 4)"
@@ -156,6 +166,8 @@ def main():
              "kind_free_text": "reference parser and definitional interpreter for X with event log and well-definedness monitor; lib/xgen.py generators; harness/h_x.cpp compile+lock-step runner"},
             {"name": "rtl-lockstep", "path": "harness/h_rtl.cpp", "serves_properties": ["C03", "C06", "C13", "C16"],
              "kind_free_text": "Verilated models built by the check from the working tree, stepped in lock-step; state access by name"},
+            {"name": "procmon", "path": "checks/c14.py", "serves_properties": ["C14"],
+             "kind_free_text": "runs shipped executables in scratch directories, snapshots files, compares with in-process results"},
             {"name": "buildcache", "path": "lib/common.py", "serves_properties": sorted(CHECKS),
              "kind_free_text": "content-hash build cache, fork-per-case runner, verdict/evidence/known-finding plumbing"},
         ],
